@@ -306,7 +306,9 @@ STAGES = ([("map", dict(f=f)) for f in ("inc", "dbl")]
           + [("flatmap", dict(g=g)) for g in ("rep", "upto", "oddonly")]
           + [("concat_r", dict(ys=ys)) for ys in ([], [7, 8])] + [("concat_l", dict(ys=[9]))]
           # three members: an empty one in the middle, and the pipeline itself in the middle
-          + [("concat_3", dict(ys=[], zs=[7])), ("concat_m", dict(ys=[9], zs=[7]))])
+          + [("concat_3", dict(ys=[], zs=[7])), ("concat_m", dict(ys=[9], zs=[7]))]
+          # the same source value used twice in one pipeline: concat!(s, s)
+          + [("concat_self", dict())])
 
 
 def build_pipeline(xs, stages):
@@ -317,7 +319,9 @@ def build_pipeline(xs, stages):
         nodes.append({"id": 1, "kind": "from_iter", "items": list(xs)})
     cur = 1
     for kind, par in stages:
-        if kind in ("concat_r", "concat_l", "concat_3", "concat_m"):
+        if kind == "concat_self":
+            nodes.append({"id": len(nodes) + 1, "kind": "concat", "ups": [cur, cur]})
+        elif kind in ("concat_r", "concat_l", "concat_3", "concat_m"):
             nodes.append({"id": len(nodes) + 1, "kind": "from_iter", "items": list(par["ys"])})
             other = len(nodes)
             if kind in ("concat_3", "concat_m"):
@@ -354,7 +358,7 @@ def stage_seqs(depth):
 QUICK_STAGES = [("map", dict(f="inc")), ("filter", dict(p="even")), ("scan", dict(r="lin", seed=5)),
                 ("take", dict(n=2)), ("skip", dict(n=1)), ("flatmap", dict(g="upto")),
                 ("flatmap", dict(g="oddonly")), ("concat_r", dict(ys=[7, 8])), ("concat_l", dict(ys=[9])),
-                ("concat_3", dict(ys=[], zs=[7])), ("concat_m", dict(ys=[9], zs=[7]))]
+                ("concat_3", dict(ys=[], zs=[7])), ("concat_m", dict(ys=[9], zs=[7])), ("concat_self", dict())]
 
 
 def terminates_on_unbounded(sq):
@@ -363,7 +367,7 @@ def terminates_on_unbounded(sq):
     if "take" not in kinds:
         return False
     before = sq[:kinds.index("take")]
-    return not any(k in ("concat_r", "concat_3", "concat_m") or (k == "filter" and p.get("p") == "none")
+    return not any(k in ("concat_r", "concat_3", "concat_m", "concat_self") or (k == "filter" and p.get("p") == "none")
                    for k, p in before)
 
 
